@@ -412,3 +412,13 @@ func (c *Ctx) fieldByRole(pkg, typ, fallback string, pred func(t types.Type) boo
 }
 
 func isMapType(t types.Type) bool { _, ok := t.Underlying().(*types.Map); return ok }
+
+// runShared runs another property's rule set as a shared part of the current check: its obligations are recorded
+// under the renamed rule ids, the current check's own descriptive texts are kept.
+func runShared(c *Ctx, from, to string, rules func(c *Ctx)) {
+	rt, ex, as := c.R.RuleText, c.R.Explain, c.R.Assume
+	c.R.Rename = map[string]string{from: to}
+	rules(c)
+	c.R.Rename = nil
+	c.R.RuleText, c.R.Explain, c.R.Assume = rt, ex, as
+}
